@@ -219,6 +219,7 @@ static bool transcribe_level(binson_parser *p, binson_writer *w, bool inobj, int
     int child = (LOOKUPS && container >= 0) ? D->n[container].first : -1;
     for (;;) {
         bool more;
+        vf_stack_paint();       /* what the calls of this step find on the stack depends on this document only */
         if (LOOKUPS && inobj && container >= 0) {
             if (child < 0) { if (binson_parser_next(p)) return fail("lookup-extra", "a field is left after all names of the object were looked up"); break; }
             more = advance_field(p, container, &child);
@@ -323,6 +324,7 @@ static bool write_tree(binson_writer *w, int id)
     for (int ch = c->first; ch >= 0; ch = D->n[ch].next) {
         const vf_node *x = &D->n[ch];
         vf_count(CT_CALLS, 1); vf_progress++;
+        vf_stack_paint();
         if (x->name_off >= 0) {
             const uint8_t *nm = D->bytes + x->name_off;
             if (!memchr(nm, 0, (size_t) x->name_len) && (ch & 1)) {
@@ -435,8 +437,19 @@ static void run_doc(vf_doc *d, const char *label, int md)
         vf_live_alloc(&L, d->bytes, d->len, md, 0);
         vf_stack_paint();
         bool ok2 = P_C03 ? traverse_c03() : P_C05 ? traverse_c05() : traverse_c10();
-        if (ok2) vf_die("decode violation did not reproduce (%s)", w1);
-        if (strcmp(w1, why)) {
+        if (ok2) {
+            /* passes on the replay: with every object and buffer filled with fixed bytes beforehand, a failure that comes and goes means the
+             * library's output depends on uninitialised memory; it is reported if it shows again within 6 more runs */
+            int again = 0;
+            for (int t = 0; t < 6 && !again; t++) {
+                vf_live_free(&L);
+                vf_live_alloc(&L, d->bytes, d->len, md, 0);
+                bool okt = P_C03 ? traverse_c03() : P_C05 ? traverse_c05() : traverse_c10();
+                if (!okt) again = 1;
+            }
+            if (!again) vf_die("decode violation did not reproduce (%s)", w1);
+        }
+        if (ok2 || strcmp(w1, why)) {
             /* fails on every run, but not with the same bytes: the library's output depends on something other than its inputs
              * (every object and buffer here is filled with fixed bytes before use); reported under one stable description */
             char t[300];
